@@ -958,6 +958,17 @@ func (e *c15Env) opMulti() {
 				infos[i] = c15Describe(c)
 			}
 		}
+		if len(names) >= 2 && len(l) >= 3 && r.Intn(4) == 0 {
+			// few tree ids spread over the backends, distinct prefixes: duplicates only "per backend"
+			ids := []int64{7, 8}
+			for i, c := range l {
+				c.LogId = ids[r.Intn(len(ids))]
+				c.LogBackendName = names[r.Intn(len(names))]
+				c.Prefix = fmt.Sprintf("t%d", i)
+				infos[i] = c15Describe(c)
+			}
+			e.out.Count("mode:multi-shared-tree-ids")
+		}
 		mc.LogConfigs = &configpb.LogConfigSet{Config: l}
 		lcTok = c15EncList(infos)
 	} else {
@@ -1393,6 +1404,13 @@ func TestVerifC15(t *testing.T) {
 			LogConfigs: &configpb.LogConfigSet{Config: []*configpb.LogConfig{mk("p", 5, "a"), mk("q", 5, "b")}}},
 		{Backends: &configpb.LogBackendSet{Backend: []*configpb.LogBackend{{Name: "a", BackendSpec: "s1"}}},
 			LogConfigs: &configpb.LogConfigSet{Config: []*configpb.LogConfig{mk("p", 5, "a"), mk("q", 5, "a")}}},
+		// the same tree id on a, b, a: the third is a duplicate on its backend although another backend used the id in between
+		{Backends: &configpb.LogBackendSet{Backend: []*configpb.LogBackend{{Name: "a", BackendSpec: "s1"}, {Name: "b", BackendSpec: "s2"}}},
+			LogConfigs: &configpb.LogConfigSet{Config: []*configpb.LogConfig{mk("one", 7, "a"), mk("two", 7, "b"), mk("three", 7, "a")}}},
+		{Backends: &configpb.LogBackendSet{Backend: []*configpb.LogBackend{{Name: "a", BackendSpec: "s1"}, {Name: "b", BackendSpec: "s2"}, {Name: "c", BackendSpec: "s3"}}},
+			LogConfigs: &configpb.LogConfigSet{Config: []*configpb.LogConfig{mk("p1", 7, "a"), mk("p2", 8, "a"), mk("p3", 7, "b"), mk("p4", 7, "c"), mk("p5", 8, "b"), mk("p6", 7, "b")}}},
+		{Backends: &configpb.LogBackendSet{Backend: []*configpb.LogBackend{{Name: "a", BackendSpec: "s1"}, {Name: "b", BackendSpec: "s2"}}},
+			LogConfigs: &configpb.LogConfigSet{Config: []*configpb.LogConfig{mk("one", 7, "a"), mk("two", 7, "b"), mk("three", 8, "a"), mk("four", 8, "b")}}},
 	}
 	for _, mc := range fixedMulti {
 		var infos []c15Info
